@@ -350,6 +350,14 @@ pub fn run(ctx: &Ctx) -> Report {
   // ---- further states and spellings, one scenario each: (label, set-up, arguments, standard input, exit status, paths that change)
   {
     type Setup = Box<dyn Fn(&Sandbox) + Sync>;
+    /// a stand-in desktop launcher first in PATH (so that nothing real is ever launched); it writes nothing
+    fn launcher(sb: &Sandbox) {
+      use std::os::unix::fs::PermissionsExt;
+      for name in ["xdg-open", "gio", "gnome-open", "kde-open", "wslview"] {
+        sb.write(&format!("bin/{name}"), b"#!/bin/sh\nexit 0\n");
+        let _ = std::fs::set_permissions(sb.path(&format!("bin/{name}")), std::fs::Permissions::from_mode(0o755));
+      }
+    }
     fn link(sb: &Sandbox, target: &str, at: &str) {
       if let Some(parent) = sb.path(at).parent() {
         let _ = std::fs::create_dir_all(parent);
@@ -374,6 +382,9 @@ pub fn run(ctx: &Ctx) -> Report {
       ("name-decides-default-output-blocked", Box::new(|sb: &Sandbox| sb.write("in/bar.torrent", b"there")), vec!["--input", "in/content", "--name", "bar"], None, 1, vec![]),
       ("output-is-a-link-to-a-file-no-force", Box::new(|sb: &Sandbox| { sb.write("elsewhere/real.torrent", b"precious"); link(sb, "../elsewhere/real.torrent", "out/t.torrent"); }), vec!["--input", "in/content", "--output", "out/t.torrent"], None, 1, vec![]),
       ("stdin-to-existing-output", Box::new(|sb: &Sandbox| sb.write("out/t.torrent", b"there")), vec!["--input", "-", "--name", "n", "--output", "out/t.torrent"], Some(b"bytes".to_vec()), 1, vec![]),
+      ("dry-run-with-open-writes-nothing", Box::new(|sb: &Sandbox| launcher(sb)), vec!["--input", "in/content", "--output", "out/t.torrent", "--dry-run", "--open"], None, 0, vec![]),
+      ("dry-run-with-open-and-force-replaces-nothing", Box::new(|sb: &Sandbox| { launcher(sb); sb.write("out/t.torrent", b"old old old"); }), vec!["--input", "in/content", "--output", "out/t.torrent", "--dry-run", "--open", "--force"], None, 0, vec![]),
+      ("open-after-a-real-run-writes-one-file", Box::new(|sb: &Sandbox| launcher(sb)), vec!["--input", "in/content", "--output", "out/t.torrent", "--open"], None, 0, vec!["out/t.torrent"]),
       ("show-and-link-do-not-write-more", Box::new(|_sb: &Sandbox| {}), vec!["--input", "in/content", "--output", "out/t.torrent", "--show", "--link"], None, 0, vec!["out/t.torrent"]),
     ];
     let replay_labels: Option<Vec<String>> = super::replay_cases(ctx).map(|rc| rc.iter().filter_map(|v| v.get("scenario").and_then(|s| s.as_str()).map(|s| s.to_string())).collect());
@@ -393,6 +404,9 @@ pub fn run(ctx: &Ctx) -> Report {
         let mut cmd = Cmd::new(&ctx.imdl, &full).cwd(&sb.root);
         if let Some(b) = stdin {
           cmd = cmd.stdin(b);
+        }
+        if sb.path("bin").is_dir() {
+          cmd = cmd.env("PATH", &format!("{}:{}", sb.path("bin").display(), std::env::var("PATH").unwrap_or_default()));
         }
         let out = cmd.run();
         let after = snapshot(&sb.root);
